@@ -459,6 +459,14 @@ def gen_rule(rng, hard=False, mixed_ok=False):
         if hard and rng.random() < 0.3:
             dur = rng.randrange(per, 3 * per + 1)
         as_int = anchored and rng.random() < 0.12
+        if as_int:
+            # an int start is an INSTANT: inside a DST gap that runs up to midnight (America/Nuuk) the
+            # instant of Saturday 23:30 reads Sunday 00:30, and the constructor rightly checks THAT date
+            # against day=...; such an anchor can only be given as a datetime
+            z = ZoneInfo(tz)
+            inst = datetime(*anchor, tzinfo=z).timestamp()
+            if datetime.fromtimestamp(inst, z).date() != date(*anchor[:3]):
+                as_int = False
         return dict(parts, tz=tz, anchor=anchor, sod=sod, dur=dur, as_int=as_int, exdates=[])
     raise RuntimeError("rule generator starved")
 
